@@ -674,4 +674,6 @@ func init() {
 	f1("math.Floor", math.Floor)
 	f1("math.floor", math.Floor)
 	f1("math.Abs", math.Abs)
+	f1("math.Log", math.Log)
+	f1("math.Exp", math.Exp)
 }
